@@ -17,7 +17,8 @@
 EXTENDS Integers, Sequences, FiniteSets, TLC
 
 CONSTANTS
-  Rows,   \* sequence of line-table rows IN LINE-PROGRAM ORDER, records
+  Rows,   \* sequence of line-table rows IN LINE-PROGRAM ORDER (all decoded compilation units, one after
+          \* the other; part 1 has no notion of a unit), records
           \*   [addr, file, line, col, stmt, pe, eb, es, seq]
           \*   file: file id, stmt/pe/eb/es: is_stmt, prologue_end, epilogue_begin,
           \*   end_sequence, seq: id of the sequence the row belongs to.  Every
@@ -99,7 +100,9 @@ LineTarget(file, l) ==
   ELSE IF StmtRows(file, l + 1) # {} THEN <<"next", l + 1>>
   ELSE <<"none", l>>
 
-\* addresses a breakpoint for file:l may be put on
+\* addresses a breakpoint for file:l may be put on.  Rows holds the rows of EVERY compilation unit that
+\* has code of the file, so "the line has no code" is a statement about the file across all units, not
+\* about one unit: the next line is used only if NO unit has code for l.
 AddrsOfLine(file, l) ==
   LET t == LineTarget(file, l)
   IN IF t[1] \in {"line", "next"} THEN {Row[i].addr : i \in StmtRows(file, t[2])} ELSE {}
@@ -133,157 +136,133 @@ FnAnswerOK(f, a, insn) ==
   IF HasPe(f) THEN a = FnBreakAddr(f) ELSE a \in insn /\ InFunc(f, a)
 
 (***************************************************************************)
-(* PART 2 - transcriptions of the implementation                           *)
-(*   V : the unit's `lines` vector = a sequence of row indices sorted by   *)
-(*       address (parser.rs:60 sort_unstable_by_key(address) - end_sequence*)
-(*       rows stay in, rows of equal address in unspecified order)         *)
-(*   D : `fn_ranges` = sequence of <<lo, hi, f>> sorted by lo (parser.rs:292) *)
+(* PART 2 - transcriptions of the implementation (as of /repo fix commits  *)
+(* a32cc53, 28a0576, 074d460; the pre-fix transcriptions are in git        *)
+(* history, commit 8aa1749).                                               *)
+(*   A debug-information object is a sequence of compilation UNITS; unit u *)
+(*   has its own `lines` vector Vs[u] = the unit's row indices sorted by   *)
+(*   parser.rs:63  sort_by_key(|x| (x.address, !x.end_sequence())) -       *)
+(*   stable, end_sequence rows first among equal addresses, then program   *)
+(*   order.  urs[u] = the unit's ranges.                                   *)
+(*   D : `fn_ranges` = sequence of <<lo, hi, f>> sorted by lo.             *)
 (* Indices are 0-based in the code; V[k+1] below is the code's lines[k].   *)
 (***************************************************************************)
 N(V) == Len(V)
 AddrAt(V, k) == Row[V[k + 1]].addr        \* lines[k].address
+RowAt(V, k)  == Row[V[k + 1]]
 
-\* all address-sorted arrangements of the rows (what sort_unstable may produce)
-RECURSIVE PermSeqs(_)
-PermSeqs(S) == IF S = {} THEN {<<>>}
-               ELSE UNION {{<<x>> \o t : t \in PermSeqs(S \ {x})} : x \in S}
-RECURSIVE SortedFrom(_)
-SortedFrom(as) ==
-  IF as = {} THEN {<<>>}
-  ELSE LET a == Min(as)
-           g == {i \in RowIdx : Row[i].addr = a}
-       IN UNION {{p \o t : t \in SortedFrom(as \ {a})} : p \in PermSeqs(g)}
-\* (operators with a parameter on purpose: TLC pre-evaluates zero-arity constant definitions,
-\* which must not happen for a real table of hundreds of rows)
-AllSortedVecs(I) == SortedFrom({Row[i].addr : i \in I})
-
-\* the arrangement a STABLE sort produces (what sort_unstable does for <= 20 elements:
-\* insertion sort) - rows of equal address keep program order
-RECURSIVE StableFrom(_)
-StableFrom(as) ==
+\* the unit's vector for the rows I of the unit (operator with a parameter on purpose: TLC
+\* pre-evaluates zero-arity constant definitions)
+RECURSIVE Asc(_)
+Asc(S) == IF S = {} THEN <<>> ELSE <<Min(S)>> \o Asc(S \ {Min(S)})
+RECURSIVE SortFrom(_, _)
+SortFrom(I, as) ==
   IF as = {} THEN <<>>
   ELSE LET a == Min(as)
-           g == {i \in RowIdx : Row[i].addr = a}
-           RECURSIVE Asc(_)
-           Asc(S) == IF S = {} THEN <<>> ELSE <<Min(S)>> \o Asc(S \ {Min(S)})
-       IN Asc(g) \o StableFrom(as \ {a})
-StableVec(I) == StableFrom({Row[i].addr : i \in I})
+           g == {i \in I : Row[i].addr = a}
+       IN Asc({i \in g : Row[i].es}) \o Asc({i \in g : ~Row[i].es}) \o SortFrom(I, as \ {a})
+UnitVec(I) == SortFrom(I, {Row[i].addr : i \in I})
 
-\* core::slice::binary_search_by of rustc 1.89 (library/core/src/slice/mod.rs), keyed by
-\* address.  Result <<"ok", k>> or <<"err", k>>, k 0-based.
-RECURSIVE BsLoop(_, _, _, _)
-BsLoop(V, key, base, size) ==
-  IF size > 1
-  THEN LET half == size \div 2
-           mid  == base + half
-       IN BsLoop(V, key, IF AddrAt(V, mid) > key THEN base ELSE mid, size - half)
-  ELSE base
-BinSearchStd(V, key) ==
-  IF N(V) = 0 THEN <<"err", 0>>
-  ELSE LET base == BsLoop(V, key, 0, N(V))
-       IN IF AddrAt(V, base) = key THEN <<"ok", base>>
-          ELSE <<"err", base + (IF AddrAt(V, base) < key THEN 1 ELSE 0)>>
-\* what the documentation of binary_search promises: any matching index
-BinSearchAny(V, key) ==
-  LET eq == {k \in 0..(N(V) - 1) : AddrAt(V, k) = key}
-  IN IF eq # {} THEN {<<"ok", k>> : k \in eq}
-     ELSE {<<"err", Cardinality({k \in 0..(N(V) - 1) : AddrAt(V, k) < key})>>}
+\* dwarf/mod.rs:246 find_unit_by_pc: the FIRST unit one of whose ranges contains pc (0 = none)
+UnitOfPc(urs, pc) ==
+  LET us == {u \in DOMAIN urs : InRanges(urs[u], pc)} IN IF us = {} THEN 0 ELSE Min(us)
 
-\* dwarf/mod.rs:246 find_unit_by_pc - one unit whose ranges are `ur`
-InUnit(ur, pc) == InRanges(ur, pc)
+\* unit/mod.rs:445 find_place_by_pc: partition_point(address <= pc).saturating_sub(1)
+PlacePos(V, pc) ==
+  LET n == Cardinality({k \in 0..(N(V) - 1) : AddrAt(V, k) <= pc}) IN IF n = 0 THEN 0 ELSE n - 1
 
-\* unit/mod.rs:445 find_place_by_pc: binary search, on a miss saturating_sub(1).
-\* Result: set of possible 0-based positions ({} = None).
-PlacePosOutcomes(V, pc, any) ==
-  IF N(V) = 0 THEN {}
-  ELSE LET rs == IF any THEN BinSearchAny(V, pc) ELSE {BinSearchStd(V, pc)}
-       IN {IF r[1] = "ok" THEN r[2] ELSE (IF r[2] = 0 THEN 0 ELSE r[2] - 1) : r \in rs}
+\* dwarf/mod.rs:262 find_place_from_pc -> {} (None) or {<<unit, position>>}
+AlgPlace(Vs, urs, pc) ==
+  LET u == UnitOfPc(urs, pc)
+  IN IF u = 0 \/ N(Vs[u]) = 0 THEN {} ELSE {<<u, PlacePos(Vs[u], pc)>>}
+AlgPlaceOf(Vs, urs, pc) ==
+  {<<RowAt(Vs[p[1]], p[2]).file, RowAt(Vs[p[1]], p[2]).line, RowAt(Vs[p[1]], p[2]).es>> : p \in AlgPlace(Vs, urs, pc)}
 
-\* dwarf/mod.rs:262 find_place_from_pc
-AlgPlacePos(V, ur, pc, any) == IF InUnit(ur, pc) THEN PlacePosOutcomes(V, pc, any) ELSE {}
-AlgPlaceOf(V, ur, pc, any) ==
-  {<<Row[V[k + 1]].file, Row[V[k + 1]].line, Row[V[k + 1]].es>> : k \in AlgPlacePos(V, ur, pc, any)}
-
-\* dwarf/mod.rs:284 find_function_by_pc over D (sorted by lo).  Binary search by lo; on a
-\* hit extend to the right over equal keys; then scan [..pos) backwards for the first
-\* range containing pc.
+\* dwarf/mod.rs:284 find_function_by_pc over D (sorted by lo): binary search by lo, on a hit
+\* extend to the right over equal keys, then scan [..pos) backwards for the first range
+\* containing pc.  (D of the unit found by find_unit_by_pc; units do not overlap here.)
 RECURSIVE LastContaining(_, _, _)
-LastContaining(D, k, pc) ==    \* k = number of leading elements considered
+LastContaining(D, k, pc) ==
   IF k = 0 THEN {}
   ELSE IF D[k][1] <= pc /\ pc < D[k][2] THEN {D[k][3]} ELSE LastContaining(D, k - 1, pc)
-AlgFuncOf(D, ur, pc) ==
-  IF ~InUnit(ur, pc) THEN {}
-  ELSE LET findpos == Cardinality({k \in DOMAIN D : D[k][1] <= pc})
-           \* Ok(pos) -> pos+1 extended over equal keys; Err(pos) -> pos: both equal the
-           \* number of entries with lo <= pc
-       IN LastContaining(D, findpos, pc)
+AlgFuncOf(D, urs, pc) ==
+  IF UnitOfPc(urs, pc) = 0 THEN {}
+  ELSE LastContaining(D, Cardinality({k \in DOMAIN D : D[k][1] <= pc}), pc)
 
-\* die_ref.rs:392/399 prolog_start_place + prolog_end_place: start at the place of low_pc,
-\* `while !place.prolog_end { place = place.next() or break }` over the WHOLE vector.
-RECURSIVE PeScan(_, _)
-PeScan(V, k) ==
-  IF Row[V[k + 1]].pe THEN k
-  ELSE IF k + 1 >= N(V) THEN k ELSE PeScan(V, k + 1)
+\* die_ref.rs:392/399 prolog_start_place + prolog_end_place: start at the place of low_pc, follow
+\* place.next() while the next row is no end_sequence row and lies inside the function; no
+\* prologue_end row found -> the start place
+RECURSIVE PeScan(_, _, _, _)
+PeScan(V, k0, k, rs) ==
+  IF RowAt(V, k).pe THEN k
+  ELSE IF k + 1 < N(V) /\ ~RowAt(V, k + 1).es /\ InRanges(rs, AddrAt(V, k + 1))
+       THEN PeScan(V, k0, k + 1, rs) ELSE k0
 FuncLo(f) == Min({r[1] : r \in Fn[f].ranges})
-\* set of possible addresses ({} = error "function not found")
-AlgFnBreak(V, ur, f, any) ==
-  {AddrAt(V, PeScan(V, k)) : k \in AlgPlacePos(V, ur, FuncLo(f), any)}
-\* same, together with the es flag of the chosen row
-AlgFnBreakRow(V, ur, f, any) ==
-  {V[PeScan(V, k) + 1] : k \in AlgPlacePos(V, ur, FuncLo(f), any)}
+\* row chosen for a function breakpoint ({} = error "function not found")
+AlgFnBreakRow(Vs, urs, f) ==
+  {Vs[p[1]][PeScan(Vs[p[1]], p[2], p[2], Fn[f].ranges) + 1] : p \in AlgPlace(Vs, urs, FuncLo(f))}
+AlgFnBreak(Vs, urs, f) == {Row[i].addr : i \in AlgFnBreakRow(Vs, urs, f)}
 
-\* dwarf/mod.rs:349 find_closest_place for ONE unit.
-\* FL = unit/mod.rs:657 file_path_with_lines_pairs: positions of V with the file, ascending.
+\* dwarf/mod.rs:349 find_closest_place.
+\* FileLines = unit/mod.rs:657 file_path_with_lines_pairs: positions of V with the file, ascending
+\* (address order, not line/column order as the field comment says).
 FileLines(V, file) ==
   LET RECURSIVE Go(_)
       Go(k) == IF k >= N(V) THEN <<>>
                ELSE (IF Row[V[k + 1]].file = file THEN <<k>> ELSE <<>>) \o Go(k + 1)
   IN Go(0)
-RowAt(V, k) == Row[V[k + 1]]
 
-\* look-ahead (mod.rs:394-411): from FL index j (1-based here) over following rows with the
-\* same line and is_stmt; the first prologue_end one wins.  Returns the FL index chosen.
-RECURSIVE Ahead(_, _, _, _)
-Ahead(V, FL, j0, j) ==
-  IF j > Len(FL) THEN j0
+IsCand(r, needle) == r.line = needle /\ r.stmt /\ ~r.es
+\* the inner look-ahead over one run of rows of the line: <<position chosen, next FL index>>
+RECURSIVE RunAhead(_, _, _, _, _)
+RunAhead(V, FL, needle, j, cur) ==
+  IF j > Len(FL) THEN <<cur, j>>
   ELSE LET r == RowAt(V, FL[j])
-       IN IF r.line # RowAt(V, FL[j0]).line \/ ~r.stmt THEN j0
-          ELSE IF r.pe THEN j ELSE Ahead(V, FL, j0, j + 1)
+       IN IF ~IsCand(r, needle) THEN <<cur, j>>
+          ELSE RunAhead(V, FL, needle, j + 1, IF r.pe /\ ~RowAt(V, cur).pe THEN FL[j] ELSE cur)
+\* the while loop: one place (as a ROW INDEX) per run of statement rows of the line
+RECURSIVE ScanRuns(_, _, _, _)
+ScanRuns(V, FL, needle, j) ==
+  IF j > Len(FL) THEN <<>>
+  ELSE IF ~IsCand(RowAt(V, FL[j]), needle) THEN ScanRuns(V, FL, needle, j + 1)
+  ELSE LET res == RunAhead(V, FL, needle, j + 1, FL[j])
+       IN <<V[res[1] + 1]>> \o ScanRuns(V, FL, needle, res[2])
 
-\* the while loop (mod.rs:378-446): returns the sequence of positions pushed to
-\* suitable_places_in_unit
-RECURSIVE Scan(_, _, _, _, _)
-Scan(V, FL, needle, j, acc) ==
-  IF j > Len(FL) THEN acc
-  ELSE LET r == RowAt(V, FL[j])
-       IN IF acc = <<>>
-          THEN IF r.line # needle \/ ~r.stmt THEN Scan(V, FL, needle, j + 1, acc)
-               ELSE LET c == Ahead(V, FL, j, j + 1)
-                    IN Scan(V, FL, needle, c + 1, <<FL[c]>>)
-          ELSE LET h == RowAt(V, acc[1])
-               IN IF r.line # h.line \/ r.col # h.col \/ r.pe # h.pe \/ r.eb # h.eb
-                     \/ r.es # h.es \/ ~r.stmt
-                  THEN Scan(V, FL, needle, j + 1, acc)
-                  ELSE Scan(V, FL, needle, j + 1, Append(acc, FL[j]))
-
-\* mod.rs:448-464 "only one place for a single unique subprogram" (key: name + ranges)
-RECURSIVE Dedup(_, _, _, _, _)
-Dedup(V, D, ur, places, seen) ==
+\* "only one place for a single unique subprogram" (key: name + ranges), shared by all units
+RECURSIVE Dedup(_, _, _, _)
+Dedup(D, urs, places, seen) ==
   IF places = <<>> THEN <<>>
-  ELSE LET k  == Head(places)
-           fs == AlgFuncOf(D, ur, AddrAt(V, k))
-       IN IF fs = {} THEN <<k>> \o Dedup(V, D, ur, Tail(places), seen)
+  ELSE LET i  == Head(places)
+           fs == AlgFuncOf(D, urs, Row[i].addr)
+       IN IF fs = {} THEN <<i>> \o Dedup(D, urs, Tail(places), seen)
           ELSE LET f   == CHOOSE x \in fs : TRUE
                    key == <<Fn[f].name, Fn[f].ranges>>
-               IN IF key \in seen THEN Dedup(V, D, ur, Tail(places), seen)
-                  ELSE <<k>> \o Dedup(V, D, ur, Tail(places), seen \cup {key})
+               IN IF key \in seen THEN Dedup(D, urs, Tail(places), seen)
+                  ELSE <<i>> \o Dedup(D, urs, Tail(places), seen \cup {key})
 
-AlgLinePositions(V, D, ur, file, l) ==
-  LET FL == FileLines(V, file)
-      p1 == Dedup(V, D, ur, Scan(V, FL, l, 1, <<>>), {})
-  IN IF p1 # <<>> THEN p1 ELSE Dedup(V, D, ur, Scan(V, FL, l + 1, 1, <<>>), {})
-AlgAddrsOfLine(V, D, ur, file, l) ==
-  LET ps == AlgLinePositions(V, D, ur, file, l) IN {AddrAt(V, ps[k]) : k \in DOMAIN ps}
-AlgLineRows(V, D, ur, file, l) ==
-  LET ps == AlgLinePositions(V, D, ur, file, l) IN {V[ps[k] + 1] : k \in DOMAIN ps}
+RECURSIVE UnitsPlaces(_, _, _, _)
+UnitsPlaces(Vs, file, needle, u) ==
+  IF u > Len(Vs) THEN <<>>
+  ELSE ScanRuns(Vs[u], FileLines(Vs[u], file), needle, 1) \o UnitsPlaces(Vs, file, needle, u + 1)
+
+\* the loop nest of the code: `for needle in [line, line+1] { if !result.is_empty() {break}; for unit ...}`
+\* - the line+1 decision is taken ONCE for the file, over all units
+AlgLineRowSeq(Vs, D, urs, file, l) ==
+  LET p1 == Dedup(D, urs, UnitsPlaces(Vs, file, l, 1), {})
+  IN IF p1 # <<>> THEN p1 ELSE Dedup(D, urs, UnitsPlaces(Vs, file, l + 1, 1), {})
+
+\* the SWAPPED loop nest (a slip this check must catch, never the code's behaviour on the unchanged
+\* tree): `for unit { for needle in [line, line+1] { if this unit found something {break} ... } }`
+RECURSIVE PerUnitPlaces(_, _, _, _)
+PerUnitPlaces(Vs, file, l, u) ==
+  IF u > Len(Vs) THEN <<>>
+  ELSE LET FL == FileLines(Vs[u], file)
+           a  == ScanRuns(Vs[u], FL, l, 1)
+       IN (IF a # <<>> THEN a ELSE ScanRuns(Vs[u], FL, l + 1, 1)) \o PerUnitPlaces(Vs, file, l, u + 1)
+AlgLineRowSeqPerUnit(Vs, D, urs, file, l) == Dedup(D, urs, PerUnitPlaces(Vs, file, l, 1), {})
+
+AlgLineRows(Vs, D, urs, file, l, perUnit) ==
+  LET ps == IF perUnit THEN AlgLineRowSeqPerUnit(Vs, D, urs, file, l) ELSE AlgLineRowSeq(Vs, D, urs, file, l)
+  IN {ps[k] : k \in DOMAIN ps}
+AlgAddrsOfLine(Vs, D, urs, file, l, perUnit) == {Row[i].addr : i \in AlgLineRows(Vs, D, urs, file, l, perUnit)}
 =============================================================================
